@@ -347,9 +347,24 @@ func runC02(ctx *core.Ctx) {
 		g := graph(p, parse)
 		line := parse.Params[1]
 		// the 'quoted' phi: a boolean phi in the loop header
+		// the quote-state flag, whatever it is called: a boolean phi one of whose incoming
+		// values is the negation of a phi of its own web (it is toggled at each quote character)
 		isQuoted := func(v ssa.Value) bool {
 			ph, ok := v.(*ssa.Phi)
-			return ok && ph.Type().String() == "bool" && ph.Comment == "quoted"
+			if !ok || ph.Type().String() != "bool" {
+				return false
+			}
+			web, _ := phiWeb(ph)
+			for q := range web {
+				for _, e := range q.Edges {
+					if u, isU := e.(*ssa.UnOp); isU && u.Op == token.NOT {
+						if x, isPhi := u.X.(*ssa.Phi); isPhi && web[x] {
+							return true
+						}
+					}
+				}
+			}
+			return false
 		}
 		anyQuotedPhi := false
 		g.Instrs(func(i ssa.Instruction) {
